@@ -124,8 +124,11 @@ func (x *Exec) callFuncValue(fr *Frame, st *State, fv *FuncV, cc *ssa.CallCommon
 		s2.Assume(is)
 		fn := fn
 		x.callFunction(fr, s2, fn, args, pos, func(s3 *State, res SVal) {
-			// ghost effects of the abstract contract apply to every candidate
+			// ghost effects of the abstract contract apply to every candidate; its ensures clauses (facts that
+			// hold for every candidate by construction, e.g. "a packet function cannot return a *modbus.ClientError")
+			// are assumed as well
 			x.applyGhostSets(s3, c, args, cc.Signature(), res)
+			x.assumeAbstractEnsures(s3, c, args, cc.Signature(), res)
 			k(s3, res)
 		})
 		rest.Assume(tb.Not(is))
@@ -701,7 +704,7 @@ func (x *Exec) loopGhostInit(fr *Frame, b *ssa.BasicBlock, ord int, lc *LoopCont
 			}
 			x.ghostDecl[name] = v.T
 		}); err != nil {
-			x.contractError(err)
+			x.warn("loop ghost not evaluable: %v", err)
 		}
 	}
 }
@@ -724,7 +727,10 @@ func (x *Exec) checkInvariants(fr *Frame, b *ssa.BasicBlock, ord int, lc *LoopCo
 			o := x.addObl(st, fmt.Sprintf("%s/loop%d/%s(%s)", x.prog.FuncKey(fr.fn), ord, phase, inv.Text), "invariant-"+phase, g, b.Instrs[0].Pos(), inv.Labels)
 			o.Clause = inv
 		}); err != nil {
-			x.contractError(err)
+			// the loop no longer has the shape the invariant talks about (names not found): the invariant
+			// cannot be established - a failed obligation, not an engine error
+			o := x.addObl(st, fmt.Sprintf("%s/loop%d/%s-inapplicable(%s)", x.prog.FuncKey(fr.fn), ord, phase, inv.Text), "invariant-"+phase, x.tb.False(), b.Instrs[0].Pos(), inv.Labels)
+			o.Detail = err.Error()
 		}
 	}
 }
@@ -735,12 +741,10 @@ func (x *Exec) assumeInvariants(fr *Frame, b *ssa.BasicBlock, ord int, lc *LoopC
 	}
 	for _, inv := range lc.Invs {
 		inv := inv
-		if err := x.guard(fmt.Sprintf("%s:%d invariant", inv.File, inv.Line), func() {
+		_ = x.guard(fmt.Sprintf("%s:%d invariant", inv.File, inv.Line), func() {
 			ec := x.loopCtx(fr, b, st, false)
 			st.Assume(ec.Bool(inv.Expr))
-		}); err != nil {
-			x.contractError(err)
-		}
+		})
 	}
 }
 
@@ -764,7 +768,7 @@ func (x *Exec) havocLoopMem(fr *Frame, b *ssa.BasicBlock, ord int, lc *LoopContr
 				ec := x.loopCtx(fr, b, st, false)
 				x.havocLoc(st, ec.Eval(me), fmt.Sprintf("L%d", ord))
 			}); err != nil {
-				x.contractError(err)
+				x.warn("loop modifies not evaluable: %v", err)
 			}
 		}
 	}
@@ -1301,4 +1305,20 @@ func (x *Exec) feasible(st *State, cond *Term) bool {
 	defer os.RemoveAll(dir)
 	r := Solve(tb.Script(ground, nil, false), SolveOpts{Timeout: 2, ScratchDir: dir})
 	return r.Status != "unsat"
+}
+
+func (x *Exec) assumeAbstractEnsures(st *State, c *Contract, args []SVal, sig *types.Signature, res SVal) {
+	var results []SVal
+	switch r := res.(type) {
+	case nil:
+	case *TupleV:
+		results = r.Vals
+	default:
+		results = []SVal{res}
+	}
+	ec := x.evalCtxFor(c, st, st, nil, args, sig, results, false)
+	for _, cl := range c.ByKind("ensures") {
+		cl := cl
+		_ = x.guard("abstract ensures", func() { st.Assume(ec.Bool(cl.Expr)) })
+	}
 }
